@@ -61,4 +61,29 @@ theorem demo_wf : Spec.sidHierOk demoEnv demoConf.sid.templates = true := by dec
 theorem demo_path_wf_local : Spec.pathConfOk demoEnv demoPath_local = true := by decide +kernel
 theorem demo_path_wf_server : Spec.pathConfOk demoEnv demoPath_server = true := by decide +kernel
 
+/-- the shipped path templates are mutually exclusive in the order `resolve_first` tries them: no
+    template matches a path that a LATER template renders from admissible concrete values
+    (`Spec.tplExcl`: the pairs with equally many '/' are told apart by the folder `ASSETS` /
+    `SHOTS`, by the extension vocabularies read from the right, or by `{task}` / `{state}` after
+    the common prefix `{sequence}_{shot}_` of the file name) -/
+theorem demo_paths_exclusive_local :
+    Spec.pathsExclusive demoEnv demoConf.sid.searchSymbols demoPath_local = true := by decide +kernel
+theorem demo_paths_exclusive_server :
+    Spec.pathsExclusive demoEnv demoConf.sid.searchSymbols demoPath_server = true := by decide +kernel
+
+/-- they are even exclusive in BOTH directions (the order of the templates does not matter) -/
+theorem demo_paths_exclusive_both_local : demoPath_local.templates.all (fun a =>
+    demoPath_local.templates.all (fun b =>
+      a.1 == b.1 || Spec.tplExcl demoEnv demoConf.sid.searchSymbols a.2 b.2)) = true := by
+  decide +kernel
+theorem demo_paths_exclusive_both_server : demoPath_server.templates.all (fun a =>
+    demoPath_server.templates.all (fun b =>
+      a.1 == b.1 || Spec.tplExcl demoEnv demoConf.sid.searchSymbols a.2 b.2)) = true := by
+  decide +kernel
+
+/-- concreteness matters: as LANGUAGES the templates overlap (every vocabulary has `\*` and `\>`),
+    e.g. `…/HAMLET/PROD/*` is matched by `asset` and by `shot` -/
+theorem demo_paths_not_exclusive_with_symbols :
+    Spec.pathsExclusive demoEnv [] demoPath_local = false := by decide +kernel
+
 end Tie
